@@ -36,6 +36,12 @@ def load_configs(ctx, names):
     return out
 
 
+def first_party(f):
+    """A function with a body that lives in the analysed tree (the extractor only walks the tree's roots)."""
+    from lib import facts as _F
+    return "blocks" in f and f.get("file", "").startswith((_F.REPO + "/", "<amalgamated>"))
+
+
 def term_cond(b):
     """The condition actually evaluated at the end of block b (rightmost operand of &&/||)."""
     t = b["term"]
